@@ -38,7 +38,7 @@ def arg_family(cpp_type: str) -> str:
                                     findings.is_open('F-37-matlab-guard-name-of-instantiation') or
                                     (_capitalised_args(t.bare) and
                                      KIND[0] in ('method', 'static'))):
-            return 'CLASS:' + MODCLS[0][t.bare]
+            return 'CLASS:' + '|'.join(sorted(MODCLS[0][t.bare]))
         return 'TEMPLATED'
     k = family_key(t.bare)
     # arrays are told apart by shape: Vector n x 1, Point2 2 x 1, Point3 3 x 1
@@ -56,7 +56,7 @@ def site_families(s):
         if c == 'double' and sh:
             out.append('double:%s,%s' % (sh.get(1, 'n'), sh.get(2, 'n')))
             continue
-        if t in MODCLS[0].values():
+        if any(t in names for names in MODCLS[0].values()):
             out.append('CLASS:' + t)
             continue
         if '<' in t and t.rstrip().endswith('>') and not STRICT[0] and \
@@ -183,6 +183,8 @@ def _compat(x, y):
     """Does the family x scanned from a guard satisfy the declared family y?"""
     if x == y:
         return True
+    if x.startswith('CLASS:') and y.startswith('CLASS:') and x[6:] in y[6:].split('|'):
+        return True
     if y == 'TEMPLATED' and x.split(':')[0] not in BASIC:
         return True
     if x == 'CXX-SPELLING' and y.startswith('CLASS:'):
@@ -230,7 +232,10 @@ def check(case):
         return [Failure('C06.generator-raises', '%s: %s' % (type(e).__name__, str(e)[:300]))]
     out = []
     by_id = dict(w.cases)
-    MODCLS[0] = {c['cpp']: c['matlab'] for c in exp['classes'] if '<' in c['cpp']}
+    MODCLS[0] = {}
+    for c in exp['classes']:
+        if '<' in c['cpp']:  # an instantiation may exist under several names (list + typedef)
+            MODCLS[0].setdefault(c['cpp'], set()).add(c['matlab'])
 
     def group(sites, overloads, kind, cls, label):
         KIND[0] = kind
